@@ -419,14 +419,16 @@ class Outcome:
         self.fails = []         # (clause, component, detail)
         self.notes = []
         self.skip = set(skip)
+        self.frozen = False     # set once a worker thread hung: whatever that zombie thread reports later is not recorded
 
     def add(self, clause, diffs):
         for comp, detail in diffs:
-            if comp not in self.skip:
+            if comp not in self.skip and not self.frozen:
                 self.fails.append((clause, comp, detail))
 
     def exception(self, detail):
-        self.fails.append(("C12.restore", "exception", detail))
+        if not self.frozen:
+            self.fails.append(("C12.restore", "exception", detail))
 
 
 def _run_with(env, ctx_obj, body, prefix, exc, out, on_inside=None):
@@ -465,9 +467,10 @@ def _in_thread(fn, out, limit=6.0):
     t.start()
     t.join(limit)
     if t.is_alive():
+        out.frozen = True
         fr = sys._current_frames().get(t.ident)
         stack = " <- ".join(f"{os.path.basename(f.filename)}:{f.lineno} {f.name}" for f in reversed(traceback.extract_stack(fr)[-4:])) if fr else "?"
-        out.exception(f"the worker thread did not finish within {limit} s (hung inside the context at {stack})")
+        out.fails.append(("C12.restore", "exception", f"the worker thread did not finish within {limit} s (hung inside the context at {stack})"))
         return False
     if box:
         out.exception(f"worker thread: {type(box[0]).__name__}: {box[0]}")
@@ -978,7 +981,19 @@ SUITES = [
 ]
 
 
+def deductive(check, tier):
+    """enter/exit protocol runs of the REAL bodies over a symbolic ghost OS state (contracts/contexts.py)"""
+    import contracts.contexts as X
+    from pyvc.verify import verify
+    for c in X.PROTOCOLS:
+        verify(c, tier, check)
+    check.assume("deductive layer: POSIX/CPython/blessed contracts of termios, tty, fcntl, signal, os.pipe/close/read and the capability "
+                 "strings are ASSUMED (contracts/osmodel.py) and probed by the pty suite; Python runs __exit__ on every exit of a with body; "
+                 "a signal delivered between two bytecodes inside __enter__/__exit__ is not modelled (DESIGN 10)")
+
+
 def run(check, tier, seed):
+    deductive(check, tier)
     allc = cases(tier, seed)
     rng = random.Random(seed)
     order = list(range(len(allc)))
